@@ -1580,6 +1580,10 @@ func (f *e1func) doReturn(rs *ast.ReturnStmt, cur []*fstate, sites *[]*e1site, p
 			}
 			continue
 		}
+		if !f.errBool && op.K == "var" && f.neverNil(op, st) {
+			put(st, false, true) // a variable still holding a freshly built error value
+			continue
+		}
 		if op.K == "var" && !st.has(fact("nil", op)) && !st.has(fact("nonnil", op)) && !st.has(fact("true", op)) && !st.has(fact("false", op)) {
 			if d := f.defOf(st, op); d != nil && (d.A[1].K == "call" || d.A[1].K == "mcall" || d.A[1].K == "dyn") {
 				idx, known := f.statusOf[d.A[1].Key()]
@@ -1804,7 +1808,7 @@ func (e *e1) inferGuar(fi *FuncInfo) []*Term {
 			cur := map[string]*Term{}
 			for _, fc := range st.facts {
 				abstract := !factPreds[fc.S]
-				if !keep[fc.S] && !abstract {
+				if (!keep[fc.S] && !abstract) || fc.S == "orig" {
 					continue
 				}
 				okFact := true
